@@ -487,7 +487,7 @@ def run_case(case: dict) -> dict:
 
         # ---- the lock held by somebody else: released once the run says that it waits ------------------------
         rel = {"n_before": None, "by": None}
-        if case["lock"] and wlock == "busy":
+        if case["lock"] and wlock in ("busy", "interrupted"):
             lockfile.touch()
             other_fd = os.open(lockfile, os.O_RDONLY)
             fcntl.flock(other_fd, fcntl.LOCK_EX | fcntl.LOCK_NB)
@@ -504,11 +504,22 @@ def run_case(case: dict) -> dict:
         async def wrapper():
             loop = asyncio.get_running_loop()
 
+            main_task = asyncio.current_task()
+
             def poll():
                 if other_fd is None:
                     return
                 if any(isinstance(lv, int) and "waiting for flock" in m for lv, m in cap.items):
-                    release("waited")
+                    if wlock == "interrupted" and rel.get("cancel_sent") is None:
+                        # Ctrl-C while the run waits; the lock is handed over only when the run is through (the blocked
+                        # flock thread has to get it before asyncio.run() can join the thread)
+                        rel["cancel_sent"] = True
+                        if how.get("cancel", "sigint") == "sigint":
+                            signal.raise_signal(signal.SIGINT)
+                        else:
+                            main_task.cancel()
+                    elif wlock != "interrupted":
+                        release("waited")
                 else:
                     loop.call_later(0.003, poll)
 
@@ -518,6 +529,8 @@ def run_case(case: dict) -> dict:
                 return await cmd.entry_point()
             finally:
                 Env.snap_tp = [e.tester_present_task is None or e.tester_present_task.done() for e in Env.ecus]
+                if wlock == "interrupted":
+                    release("after-the-interrupt")
 
         if other_fd is not None:   # a run that blocks the event loop instead of waiting in a thread would never be released
             def bark():
@@ -535,6 +548,7 @@ def run_case(case: dict) -> dict:
         except (KeyboardInterrupt, asyncio.CancelledError) as e:
             obs["exit"] = "raise:cancelled"
             obs["exit_type"] = type(e).__name__
+            obs["exit_in_lock_wait"] = "_aquire_flock" in traceback.format_exc()
         except BaseException as e:  # noqa
             obs["exit"] = "raise:" + type(e).__name__
             obs["exit_tb"] = traceback.format_exc()[-600:]
@@ -550,7 +564,7 @@ def run_case(case: dict) -> dict:
             tr = [" ".join([l.split(" ")[0], "0", l.split(" ")[2]]) if i < rel["n_before"] else l for i, l in enumerate(tr)]
         obs["trace"] = tr
         obs["waited"] = any(isinstance(lv, int) and "waiting for flock" in m for lv, m in cap.items)
-        if case["lock"] and wlock == "busy":
+        if case["lock"] and wlock in ("busy", "interrupted"):
             obs["lock_wait"] = rel["by"]
             obs["art_before_lock"] = bool(rel.get("art_before"))
         # ---- hooks -------------------------------------------------------------------------------
